@@ -1,3 +1,44 @@
 pub use super::recv::verif as recv;
 pub use super::send::verif as send;
 pub use super::state::verif as state;
+
+/// Native replay body for the E2 query `e2_sendstream_reset` (populates the real hash map, so it
+/// is never run under Kani).  Resetting a stream with `written` bytes buffered must hand exactly
+/// those unacknowledged bytes back to the connection's send window and leave every other
+/// connection-level counter (in particular `data_sent`, the flow-control ledger) alone.
+pub fn sendstream_reset_native(written: u8, other_data_sent: u16) -> u32 {
+    use super::state::verif::{mk_streams, Scalars};
+    let mut st = mk_streams(&Scalars {
+        max: [10, 10],
+        max_data: 1 << 20,
+        send_window: 1 << 20,
+        data_sent: other_data_sent as u64,
+        unacked_data: other_data_sent as u64,
+        ..Default::default()
+    });
+    let mut pending = Retransmits::default();
+    let conn_state = crate::connection::State::Established;
+    let id = {
+        let mut s = Streams { state: &mut st, conn_state: &conn_state };
+        s.open(Dir::Uni).expect("stream credit available")
+    };
+    st.send.get_mut(&id).map(get_or_insert_send(VarInt::from_u32(1 << 16)));
+    let data = [7u8; 255];
+    {
+        let mut ss = SendStream { id, state: &mut st, pending: &mut pending, conn_state: &conn_state };
+        let n = ss.write(&data[..written as usize]).unwrap_or(0);
+        assert!(n == written as usize || written == 0);
+    }
+    let (data_sent, unacked, max_data) = (st.data_sent, st.unacked_data, st.max_data);
+    assert!(data_sent == other_data_sent as u64 + written as u64);
+    {
+        let mut ss = SendStream { id, state: &mut st, pending: &mut pending, conn_state: &conn_state };
+        ss.reset(VarInt::from_u32(9)).expect("first reset succeeds");
+        assert!(ss.reset(VarInt::from_u32(9)).is_err());
+    }
+    assert!(st.data_sent == data_sent, "reset must not refund connection-level flow-control credit");
+    assert!(st.unacked_data == unacked - written as u64, "reset must return the unacknowledged bytes to the send window");
+    assert!(st.max_data == max_data);
+    assert!(pending.reset_stream.len() == 1);
+    1
+}
